@@ -503,6 +503,10 @@ def exact_family():
             for P in itertools.combinations(keys, k):
                 out.append(("RUnreachable", src, list(P)))
         out.append(("RUnreachable", src, keys))
+    # ... and the module body is NOT a scope of delete_unreachable_code (seed C07-c): nothing at top level goes
+    for blocker in ("raise ValueError", "assert False", "while True:\n    pass"):
+        out.append(("RUnreachable*", f"before = 1\n{blocker}\nafterVar = 2\ndef after_func():\n    return 1\n"
+                                     "class AfterClass:\n    pass\n", []))
     # delete_pointless_statements: `_`
     for s in UNDERSCORE_FAMILY[:4]:
         out.append(("RPointless", s, []))
